@@ -497,10 +497,30 @@ package main
 
 //@ func redactCommand
 //@   safety C07
+//@   props C01 C04 C03
 //@   assigns Arr:Val, GoMaps, Mem:OMap
 //@   allocs Arr:Int, Arr:Str
 //@   requires not-a-table: !isTable(cmd)
+//@   local c := mkCfg(redactedString, redactNumbers, redactBooleans, shouldEncrypt && encryptionKey != nil, mkbytes(elems(encryptionKey), off(encryptionKey), len(encryptionKey)), redactedFieldsRegexp, emailRegex, redactNamespaces)
+//@   local A := om(cmd)
 //@   loop 1 invariant key-path-frame: unchangedBelow("Arr:Str")
+//@   loop 1 each stage-relation {C01,C03}: RelS(c, shouldEagerRedact, inSearchStage, stage, newPipeline[_idx])
+//@   assert_after (*orderedmap.OrderedMap).Get#5 keys-so-far: ChangedOnlyZ(A, om(cmd))
+//@   assert_after (*orderedmap.OrderedMap).Get#9 keys-so-far: ChangedOnlyZ(A, om(cmd))
+//@   ensures only-this-map: unchangedBelowExcept("Mem:OMap", cmd)
+//@   ensures only-zone-keys-change {C04,C03}: implies(cmd != nil, ChangedOnlyZ(A, om(cmd)))
+//@   ensures zone-query-map {C01}: implies(cmd != nil, ZoneMap(c, shouldEagerRedact, A, om(cmd), "query"))
+//@   ensures zone-filter-map {C01}: implies(cmd != nil, ZoneMap(c, shouldEagerRedact, A, om(cmd), "filter"))
+//@   ensures zone-sort-map {C01}: implies(cmd != nil, ZoneMap(c, shouldEagerRedact, A, om(cmd), "sort"))
+//@   ensures zone-update-map {C01}: implies(cmd != nil, ZoneMap(c, shouldEagerRedact, A, om(cmd), "update"))
+//@   ensures zone-update-array {C01}: implies(cmd != nil, ZoneArr(c, shouldEagerRedact, A, om(cmd), "update"))
+//@   ensures zone-updates-array {C01}: implies(cmd != nil, ZoneArr(c, shouldEagerRedact, A, om(cmd), "updates"))
+//@   ensures zone-deletes-array {C01}: implies(cmd != nil, ZoneArr(c, shouldEagerRedact, A, om(cmd), "deletes"))
+//@   ensures zone-q-map {C01}: implies(cmd != nil, ZoneMap(c, shouldEagerRedact, A, om(cmd), "q"))
+//@   ensures zone-u-map {C01}: implies(cmd != nil, ZoneMap(c, shouldEagerRedact, A, om(cmd), "u"))
+//@   ensures zone-u-array {C01}: implies(cmd != nil, ZoneArr(c, shouldEagerRedact, A, om(cmd), "u"))
+//@   ensures zone-documents-array {C01}: implies(cmd != nil && omIdx(A, "insert") >= 0, ZoneArr(c, shouldEagerRedact, A, om(cmd), "documents"))
+//@   ensures zone-pipeline-array {C01,C03}: implies(cmd != nil && omIdx(A, "pipeline") >= 0 && isArr(omVal(A, omIdx(A, "pipeline"))), isArr(omVal(om(cmd), omIdx(A, "pipeline"))) && len(arrOf(omVal(om(cmd), omIdx(A, "pipeline")))) == len(arrOf(omVal(A, omIdx(A, "pipeline")))))
 
 //@ func redactNamespace
 //@   safety C07
